@@ -244,8 +244,9 @@ class Spec(PropSpec):
                     "(c06_timeout_exact: TimedOut <=> retx_threshold*(retx_max+1) consecutive timer passes without an ACK that "
                     "advances snd_una / completes the handshake) and the local counter facts; not proved: that a round-based "
                     "bounded-delay environment with fewer than retx_max drops per segment yields an advancing ACK inside every "
-                    "budget window - missing are (M1) receiver room when the retransmission arrives (fails after a reordered "
-                    "older ACK re-opened the window, tcb_ack has no SND.WL1/WL2 test, with an idle reader), (M2) the ACK arriving "
+                    "budget window - missing are (M1) receiver room when the retransmission arrives (a reordered older ACK can "
+                    "re-open the window beyond the receiver's right edge, tcb_ack has no SND.WL1/WL2 test: needs the right-edge "
+                    "invariant over the wire or FIFO delivery), (M2) the ACK arriving "
                     "while ackn <= snd_nxt (rewind and re-segmentation are two events of the connection-level system), (M3) the "
                     "round/drop counting. c06_quiescent_complete is proved for all schedules without a lost/overtaken window "
                     "update; for the others it is refuted on the code as it is (class ZeroWindowStall, "
